@@ -6,6 +6,7 @@ package main
 //   proxy_reset_guarded  : shape of retryState.reset(): bare `...Retries().Decrease()` (false) or
 //                          `if r.<flag> { ...Decrease() ... }` (true) (go/ast)
 //   proxy_direct_clears_again : processError's `if s.directResponse {..}` block assigns receiverFiltersAgainPhase = InitPhase (go/ast)
+//   proxy_put_resets_cursor : streamfilter.PutStreamFilterChain (or a chain method it calls) assigns 0 to both cursors (go/ast)
 //   proxy_default_global_ms : types.GlobalTimeout (evaluated)
 //   proxy_reason_code    : types.ConvertReasonToCode evaluated on every reset reason (runs the real function)
 //   phase order          : the types.Phase constants have the order the model's [phase] assumes (runs the real constants)
@@ -136,6 +137,43 @@ func genProxyTokens(repo string) (string, error) {
 	fmt.Fprintf(&b, "Definition proxy_direct_clears_again : bool := %v.\n", dca)
 	fmt.Fprintf(&b, "Definition proxy_direct_cancels_retry : bool := %v.\n", dcr)
 
+	// --- does PutStreamFilterChain (or a method it calls on the chain) zero both filter cursors before the chain is pooled?
+	putResets := false
+	if _, cf, err := ParseGoFile(repo, "pkg/streamfilter/chain.go"); err == nil {
+		zeroed := map[string]bool{}
+		var visit func(body *ast.BlockStmt, depth int)
+		visit = func(body *ast.BlockStmt, depth int) {
+			ast.Inspect(body, func(n ast.Node) bool {
+				switch x := n.(type) {
+				case *ast.AssignStmt:
+					if len(x.Lhs) == 1 && len(x.Rhs) == 1 {
+						if l, isL := x.Lhs[0].(*ast.SelectorExpr); isL {
+							if lit, isLit := x.Rhs[0].(*ast.BasicLit); isLit && lit.Value == "0" {
+								zeroed[l.Sel.Name] = true
+							}
+						}
+					}
+				case *ast.CallExpr:
+					if se, isSel := x.Fun.(*ast.SelectorExpr); isSel && depth < 2 {
+						if m := FindFunc(cf, "DefaultStreamFilterChainImpl", se.Sel.Name); m != nil {
+							visit(m.Body, depth+1)
+						}
+					}
+				}
+				return true
+			})
+		}
+		if put := FindFunc(cf, "", "PutStreamFilterChain"); put != nil {
+			visit(put.Body, 0)
+			putResets = zeroed["receiverFiltersIndex"] && zeroed["senderFiltersIndex"]
+		} else {
+			ok = false
+		}
+	} else {
+		ok = false
+	}
+	fmt.Fprintf(&b, "Definition proxy_put_resets_cursor : bool := %v.\n", putResets)
+
 	// --- retry budget default and reset() shape
 	_, rf, err := ParseGoFile(repo, "pkg/proxy/retrystate.go")
 	if err != nil {
@@ -206,7 +244,7 @@ func genProxyTokens(repo string) (string, error) {
 		}
 	}
 	fmt.Fprintf(&b, "Definition proxy_default_global_ms : Z := %d.\n", int64(types.GlobalTimeout/time.Millisecond))
-	b.WriteString("Definition proxy_src : srcp :=\n  {| loop_bound := proxy_loop_bound; min_budget := proxy_min_budget; reset_guarded := proxy_reset_guarded;\n     direct_clears_again := proxy_direct_clears_again;\n     direct_cancels_retry := proxy_direct_cancels_retry; reason_code := proxy_reason_code |}.\n")
+	b.WriteString("Definition proxy_src : srcp :=\n  {| loop_bound := proxy_loop_bound; min_budget := proxy_min_budget; reset_guarded := proxy_reset_guarded;\n     direct_clears_again := proxy_direct_clears_again;\n     direct_cancels_retry := proxy_direct_cancels_retry; put_resets_cursor := proxy_put_resets_cursor;\n     reason_code := proxy_reason_code |}.\n")
 	fmt.Fprintf(&b, "Definition ProxyTokens_translator_ok := %v.\n", ok)
 	return b.String(), nil
 }
